@@ -171,7 +171,7 @@ class Inst:
             tb = traceback.extract_tb(e.__traceback__)
             where = [f for f in tb if '/rockit/' in f.filename]
             loc = ('%s:%s' % (where[-1].filename.split('/rockit/')[-1], where[-1].name)) if where else '?'
-            raise RockitRaised('%s|%s: %s' % (loc, type(e).__name__, str(e).strip().splitlines()[-1][:200]))
+            raise RockitRaised('%s|%s: %s' % (loc, type(e).__name__, (str(e).strip().splitlines() or [''])[-1][:200]))
         self.t_rockit = time.time() - t0
         if callable(extra_outputs):
             with quiet():
